@@ -135,6 +135,8 @@ Proof.
     + simpl simp. pose proof (simp_atom_eval (QLang name) d Hl) as Ha. simpl simp_atom in Ha.
       destruct (lang_code c name); exact Ha.
     + destruct names; reflexivity.
+    + reflexivity.
+    + reflexivity.
 Qed.
 
 Theorem expand_eval : forall q d, ev (expand q) d = ev q d.
@@ -201,6 +203,8 @@ Proof.
     + cbn [simp simp_atom]. destruct (existsb _ (c_repos c)); [|exact I]. destruct (forallb _ l); exact I.
     + cbn [simp simp_atom]. destruct (lang_code c name); exact I.
     + destruct names; exact I.
+    + exact I.
+    + exact I.
 Qed.
 
 Theorem expand_buildable : forall q, nb q -> buildable (expand q).
